@@ -4,7 +4,7 @@ LEVEL = 'proof'
 PROP = 'C19'
 """C19 — each subgraph of a multi-signature model is transformed as if it stood alone (frame clauses)."""
 def run(rep):
-    gc.small_carriers(rep, PROP); gc.insert_obligations(rep, PROP); gc.performer_obligations(rep, PROP)
+    gc.small_carriers(rep, PROP); gc.insert_obligations(rep, PROP); gc.performer_obligations(rep, PROP); gc.names_obligations(rep, PROP)
     gc.canaries(rep); gc.performer_canaries(rep)
     rep.assume('subgraph object graphs are disjoint (no operator/tensor/list object shared between two subgraphs): true of models parsed by the flatbuffer object API')
     rep.assume('plan generation (params_generator loops keyed by tensor name; uniqueness check) and shared constants (C15) are not re-proved here')
